@@ -1318,7 +1318,7 @@ pub fn run_repro(args: &[String]) -> i32 {
                 _ => break,
             }
         }
-        s.wait_out("DONE", 5000);
+        s.wait_out("DONE", 20000);
         let out = s.stdout();
         let finals: Vec<(u64, u64)> = out.lines().filter_map(|l| { let f: Vec<&str> = l.split(' ').collect(); if f.len() == 5 && f[0] == "CNT" { Some((f[2].parse().ok()?, f[3].parse().ok()?)) } else { None } }).collect();
         b = json!({"commands": "break *hit_a_inc; run; then at every stop: thread switch <another worker>; continue",
@@ -1360,7 +1360,7 @@ pub fn run_repro(args: &[String]) -> i32 {
                     log.put(json!({"ev": "removed", "ok": r.is_ok()}));
                     let r = s.dbg.continue_debugee_with_reason();
                     log.put(json!({"ev": "continued", "result": format!("{r:?}")}));
-                    s.wait_out("DONE", 5000);
+                    s.wait_out("DONE", 20000);
                     let out = s.stdout();
                     log.put(json!({"ev": "output", "counters": out.lines().filter(|l| l.starts_with("CNT")).map(|l| l.split(' ').nth(3).unwrap_or("?").to_string()).collect::<Vec<_>>()}));
                     return;
